@@ -4,7 +4,7 @@ import WindVerif.Proofs.PoolLife
 
 Property theorems only (proofs in `Proofs/PoolLife*.lean`); they hold for every configuration incl. the injected faults
 (`begin()` raising, the functor raising at any chunk), every call history and every interleaving (`Reach cfg s`).
-That `__exit__` itself terminates is part of C02 (`imap_no_deadlock`, under `ExitCap`; D19 outside it).
+That `__exit__` itself terminates is part of C02 (`imap_no_deadlock`; D19 repaired: for every work-queue bound).
 -/
 namespace WindVerif.C04
 open WindVerif.Pool
